@@ -2,22 +2,21 @@
   C03 — decryption inverts encryption with noise inside a two-sided bound.
 
   The theorems are about the definitions of `Model/RLWE.lean` that the driver executes
-  (`encryptZeroSk`, `encryptZeroPk`, `encryptZeroPkNoP`, `addPtToCt`, `encrypt`, `decrypt`, `genPublicKey`,
-  `RQ.errDraw`), for EVERY commutative ring as carrier.  The executable carrier `RQ`/`RPoly` is tied to the
-  Go code by the correspondence run; that `RPoly` with its operations is a commutative ring is C01's statement.
+  (`ezSk`, `ezPk`, `ezPkNoP` = `EncryptZero` per key kind, `addPtToCt`, `encrypt`, `decrypt`, `genPublicKey`),
+  for EVERY commutative ring as carrier.  The executable carrier `RQ`/`RPoly` is tied to the Go code by the
+  correspondence run; that `RPoly` with its operations is a commutative ring is C01's statement.
 
   Reading of the flags.  A model value is the stored polynomial pulled back to the coefficient domain with
   the Montgomery factor kept.  `denote M md x` is the polynomial it stands for: `ofM x` iff `md.isMont`.
 
-  Found false of the code (each with a counterexample theorem below and a failing probe in `harness/c03*.go`):
-    * `IsMontgomery = true` with an sk-encryptor or a pk-encryptor without P: the error is added outside the
-      Montgomery domain, the denoted noise is `e·R⁻¹`                    (`montgomery_flag_counterexample`)
-    * sk-encryptor and a target of degree ≥ 2: `c1` is never written    (`sk_degree2_counterexample`)
-    * any target of degree ≥ 2 that is re-used: `Value[2:]` is kept     (`dec_enc_degGe2_partial`)
-    * Xe = Ternary{H}, target outside the NTT domain: `ReadAndAdd` zeroes the unselected coefficients
-                                                                         (`sparse_readAndAdd_counterexample`)
-    * Xe ternary, target outside the NTT domain and below the top level: `ReadAndAdd` panics
-                                                                         (`ternary_atLevel_panics`)
+  The model follows the code after the fixes /verif/fixes/C03-1 … C03-8.  Before them the property was false
+  (sk-encryptor with a target of degree ≥ 2, re-used targets of degree ≥ 2, `IsMontgomery` under a secret key or
+  a public key without P, ternary Xe outside the NTT domain); the corresponding probes stay in the harness
+  (`dec_enc_noise_upper` with keys `C03-sk-degree-ge2`, `C03-degree-ge2-stale`, `C03-montgomery-flag`,
+  `C03-ternaryH-readandadd`; `encrypt_total`; `decrypt_degree7`; `pt_value_level`; `declared_std`).
+  Still open: `ShallowCopy` of a `WithPRNG` encryptor draws `c1` from a fresh system PRNG (probe
+  `shallowcopy_keeps_prng`, key `C03-shallowcopy-drops-prng`); the ciphertext is valid (the theorems below do not
+  care where `a` comes from) but a seed holder cannot expand a degree-0 ciphertext made by the copy.
   Partial: distributional statements (standard deviation, independence of two encryptions, uniformity of the
   wrong-key phase) are labelled statistical tests in the harness; there is no probability theory here.
 -/
@@ -30,114 +29,69 @@ open Lattigo Lattigo.RLWE
 
 variable {α : Type} [CommRing α] {μ : Type}
 
-/-- `EncryptZero` of an sk-encryptor as a function of the target's metadata and content -/
-abbrev ezSk (M : Mont α) (a : α) (xe : ErrDraw α) (sM : α) : MetaData μ → List α → Option (List α) :=
-  fun md old => encryptZeroSk M md.isNTT old a xe sM
-
-abbrev ezPkNoP (M : Mont α) (u : α) (xe0 xe1 : ErrDraw α) (pk0M pk1M : α) :
-    MetaData μ → List α → Option (List α) :=
-  fun md old => encryptZeroPkNoP M md.isNTT old u xe0 xe1 pk0M pk1M
-
-abbrev ezPk {β : Type} [CommRing β] (MQ : Mont α) (MQP : Mont β) (ext : α → β) (down : β → α)
-    (u e0 e1 : α) (pk0M pk1M : β) : MetaData μ → List α → Option (List α) :=
-  fun md old => encryptZeroPk MQ MQP ext down md.isMont old u e0 e1 pk0M pk1M
-
 /-! ## secret key -/
 
-/-- **dec_enc_sk.** Degree-1 target, honest error draw, every flag combination, every plaintext, every
-    previous content of the target: `Decrypt(Encrypt(pt))` has the plaintext's metadata and the stored value
-    `pt.value + e` — the fresh noise IS the sampled error. -/
-theorem dec_enc_sk {M : Mont α} {R Rinv : α} (h : IsMont M R Rinv) {xe : ErrDraw α} (hx : xe.Honest)
-    (ntt intt : α → α) (pt : Pt α μ) (ct : Ct α μ) (o0 o1 : α) (hct : ct.value = [o0, o1]) (a s : α) :
-    (encrypt (ezSk M a xe (M.toM s)) ntt intt (some pt) ct).bind (fun ct' => decrypt M ct' (M.toM s))
-      = some { value := pt.value + xe.e, md := pt.md } := by
-  have hz : ezSk M a xe (M.toM s) pt.md ct.value = some [-(a * s) + xe.e, a] := by
-    simp only [ezSk, hct]; exact encryptZeroSk_deg1 h _ o0 o1 a s hx
+/-- **dec_enc_sk.** Every target of degree ≥ 1 (fresh or re-used: `o0, o1, rest` arbitrary), every flag
+    combination, every plaintext: `Decrypt(Encrypt(pt))` has the plaintext's metadata and the stored value
+    `pt.value + e'`, `e' = e` resp. `MForm(e)` when the plaintext is flagged Montgomery — the fresh noise IS the
+    sampled error. -/
+theorem dec_enc_sk {M : Mont α} {R Rinv : α} (h : IsMont M R Rinv)
+    (ntt intt : α → α) (pt : Pt α μ) (ct : Ct α μ) (o0 o1 : α) (rest : List α)
+    (hct : ct.value = o0 :: o1 :: rest) (a e s : α) :
+    (encrypt (ezSk M a e (M.toM s)) ntt intt (some pt) ct).bind (fun ct' => decrypt M ct' (M.toM s))
+      = some { value := pt.value + montIf M pt.md.isMont e, md := pt.md } := by
+  have hz := ezSk_degGe1 h pt.md o0 o1 a e s rest
+  rw [← hct] at hz
   rw [encrypt_value _ ntt intt pt ct _ _ hz]
   simp only [Option.bind_some]
   rw [decrypt_eq h s _ (by simp)]
-  simp only [phase_encSk]
+  simp only [phase_encSk_tail]
 
 example : IsMont (⟨(· * 2), (· * 4)⟩ : Mont (ZMod 7)) 2 4 := ⟨by decide, fun _ => rfl, fun _ => rfl⟩
-example (e : α) : (ErrDraw.dense e).Honest := ErrDraw.dense_honest e
 
-/-- the same in terms of denoted polynomials: the denoted noise is `e` when the Montgomery flag is clear and
-    `e·R⁻¹` when it is set. -/
+/-- **Montgomery flag.** In terms of denoted polynomials the fresh noise is `e` for BOTH values of the flag. -/
 theorem dec_enc_sk_denote {M : Mont α} {R Rinv : α} (h : IsMont M R Rinv) (pt : Pt α μ) (e : α) :
-    denote M pt.md (pt.value + e) - denote M pt.md pt.value = if pt.md.isMont then M.ofM e else e := by
-  unfold denote
-  cases pt.md.isMont
-  · simp
-  · simp only [if_true, h.ofM]; ring
+    denote M pt.md (pt.value + montIf M pt.md.isMont e) = denote M pt.md pt.value + e := by
+  rw [denote_add h, denote_montIf h]
 
-/-- **The property fails for `IsMontgomery = true` under a secret key** (same for a public key without P,
-    `dec_enc_pk_noP`): over `Z/7`, `R = 2`, error `e = 1`, plaintext 0 flagged Montgomery: the denoted noise of
-    `Decrypt(Encrypt(pt))` is `4 = e·R⁻¹`, not `1`.  (On the real ring `R⁻¹ = 2^-64 mod Q`, so the noise is of
-    the order of Q: probe `dec_enc_noise_upper`, key `C03-montgomery-flag`.) -/
-theorem montgomery_flag_counterexample :
-    ∃ (M : Mont (ZMod 7)) (R Rinv : ZMod 7), IsMont M R Rinv ∧
-      ∃ (pt : Pt (ZMod 7) Unit) (ct : Ct (ZMod 7) Unit) (a s e : ZMod 7) (out : Pt (ZMod 7) Unit),
-        pt.md.isMont = true ∧ ct.value = [0, 0] ∧
-        (encrypt (ezSk M a (ErrDraw.dense e) (M.toM s)) id id (some pt) ct).bind
-            (fun ct' => decrypt M ct' (M.toM s)) = some out ∧
-        denote M out.md out.value - denote M pt.md pt.value ≠ e := by
-  refine ⟨⟨(· * 2), (· * 4)⟩, 2, 4, ⟨by decide, fun _ => rfl, fun _ => rfl⟩, ?_⟩
-  refine ⟨⟨0, ⟨(), true, true⟩⟩, ⟨[0, 0], ⟨(), false, false⟩⟩, 3, 1, 1, ⟨1, ⟨(), true, true⟩⟩, rfl, rfl, ?_, ?_⟩
-  · decide
-  · decide
+/-- the two degree-2 instances that used to fail, now computed by the model over `Z` (a = s = 1, e = 0, m = 0)
+    and over `Z/7` with `R = 2` and the Montgomery flag set (a = 3, s = 1, e = 1: denoted noise 1) -/
+example : (encrypt (μ := Unit) (ezSk (⟨id, id⟩ : Mont Int) 1 0 1) id id
+      (some ⟨0, ⟨(), false, false⟩⟩) ⟨[0, 0, 0], ⟨(), false, false⟩⟩).bind
+    (fun ct' => decrypt ⟨id, id⟩ ct' 1) = some ⟨0, ⟨(), false, false⟩⟩ := by decide
+
+example : (encrypt (μ := Unit) (ezSk (⟨(· * 2), (· * 4)⟩ : Mont (ZMod 7)) 3 1 (1 * 2)) id id
+      (some ⟨0, ⟨(), true, true⟩⟩) ⟨[5, 6], ⟨(), false, false⟩⟩).bind
+    (fun ct' => decrypt ⟨(· * 2), (· * 4)⟩ ct' (1 * 2)) = some ⟨2, ⟨(), true, true⟩⟩
+    ∧ denote (⟨(· * 2), (· * 4)⟩ : Mont (ZMod 7)) (⟨(), true, true⟩ : MetaData Unit) 2 = 1 := by decide
 
 /-- **degree-0 target** (compressed ciphertext, `c1` re-expanded from the PRNG by the receiver):
-    the stored `c0` together with the drawn `a` decrypts to `m + e`. -/
-theorem dec_enc_sk_deg0 {M : Mont α} {R Rinv : α} (h : IsMont M R Rinv) {xe : ErrDraw α} (hx : xe.Honest)
-    (ntt intt : α → α) (pt : Pt α μ) (ct : Ct α μ) (o0 : α) (hct : ct.value = [o0]) (a s : α) :
-    ∃ c0, encrypt (ezSk M a xe (M.toM s)) ntt intt (some pt) ct = some { value := [c0], md := pt.md } ∧
+    the stored `c0` together with the drawn `a` decrypts to `m + e'`. -/
+theorem dec_enc_sk_deg0 {M : Mont α} {R Rinv : α} (h : IsMont M R Rinv)
+    (ntt intt : α → α) (pt : Pt α μ) (ct : Ct α μ) (o0 : α) (hct : ct.value = [o0]) (a e s : α) :
+    ∃ c0, encrypt (ezSk M a e (M.toM s)) ntt intt (some pt) ct = some { value := [c0], md := pt.md } ∧
       decrypt M ({ value := [c0, a], md := pt.md } : Ct α μ) (M.toM s)
-        = some { value := pt.value + xe.e, md := pt.md } := by
-  have hz : ezSk M a xe (M.toM s) pt.md ct.value = some [-(a * s) + xe.e] := by
-    simp only [ezSk, hct]; exact encryptZeroSk_deg0 h _ o0 a s hx
-  refine ⟨-(a * s) + xe.e + pt.value, encrypt_value _ ntt intt pt ct _ _ hz, ?_⟩
+        = some { value := pt.value + montIf M pt.md.isMont e, md := pt.md } := by
+  have hz := ezSk_deg0 h pt.md o0 a e s
+  rw [← hct] at hz
+  refine ⟨-(a * s) + montIf M pt.md.isMont e + pt.value, encrypt_value _ ntt intt pt ct _ _ hz, ?_⟩
   rw [decrypt_eq h s _ (by simp)]
   simp only [phase_encSk]
 
-/-- **degree ≥ 2 target, as the code is**: the phase is `m + e − a·s + s·(o1 + s·(o2 + …))` where `o1, o2, …` is
-    the previous content of `Value[1:]`.  FULL statement wanted by the property: `… = pt.value + xe.e`; it
-    holds only if the stale tail happens to cancel `a·s`. -/
-theorem dec_enc_sk_degGe2_partial {M : Mont α} {R Rinv : α} (h : IsMont M R Rinv) {xe : ErrDraw α} (hx : xe.Honest)
-    (ntt intt : α → α) (pt : Pt α μ) (ct : Ct α μ) (o0 o1 o2 : α) (rest : List α)
-    (hct : ct.value = o0 :: o1 :: o2 :: rest) (a s : α) :
-    (encrypt (ezSk M a xe (M.toM s)) ntt intt (some pt) ct).bind (fun ct' => decrypt M ct' (M.toM s))
-      = some { value := pt.value + xe.e - a * s + s * phase s (o1 :: o2 :: rest), md := pt.md } := by
-  have hz : ezSk M a xe (M.toM s) pt.md ct.value = some ((-(a * s) + xe.e) :: o1 :: o2 :: rest) := by
-    simp only [ezSk, hct]; exact encryptZeroSk_degGe2 h _ o0 o1 o2 a s rest hx
-  rw [encrypt_value _ ntt intt pt ct _ _ hz]
-  simp only [Option.bind_some]
-  rw [decrypt_eq h s _ (by simp)]
-  simp only [Option.some.injEq, Pt.mk.injEq, and_true, phase]
-  ring
-
-/-- **The property fails for an sk-encryptor and a fresh (all-zero) degree-2 target**: over `Z`, `a = s = 1`,
-    `e = 0`, `m = 0`: the result is `−1`, not `m + e = 0`.  (Probe key `C03-sk-degree-ge2`.) -/
-theorem sk_degree2_counterexample :
-    ∃ (M : Mont Int), IsMont M 1 1 ∧
-      (encrypt (μ := Unit) (ezSk M 1 (ErrDraw.dense 0) (M.toM 1)) id id
-          (some ⟨0, ⟨(), false, false⟩⟩) ⟨[0, 0, 0], ⟨(), false, false⟩⟩).bind
-        (fun ct' => decrypt M ct' (M.toM 1)) = some ⟨-1, ⟨(), false, false⟩⟩ := by
-  refine ⟨⟨id, id⟩, ⟨rfl, fun x => (mul_one x).symm, fun x => (mul_one x).symm⟩, ?_⟩
-  decide
-
 /-- **wrong_key.** Decrypting a fresh sk-ciphertext with another key `s'`: the distance to the plaintext is
-    `e + a·(s' − s)`; `a` is the uniform draw, so for `s' − s` a unit this is a uniform element shifted by `e`
+    `e' + a·(s' − s)`; `a` is the uniform draw, so for `s' − s` a unit this is a uniform element shifted by `e'`
     (`unit_mul_bijective`). -/
-theorem wrong_key {M : Mont α} {R Rinv : α} (h : IsMont M R Rinv) {xe : ErrDraw α} (hx : xe.Honest)
-    (ntt intt : α → α) (pt : Pt α μ) (ct : Ct α μ) (o0 o1 : α) (hct : ct.value = [o0, o1]) (a s s' : α) :
-    ∃ out, (encrypt (ezSk M a xe (M.toM s)) ntt intt (some pt) ct).bind (fun ct' => decrypt M ct' (M.toM s'))
-        = some out ∧ out.value - pt.value = xe.e + a * (s' - s) ∧ out.md = pt.md := by
-  have hz : ezSk M a xe (M.toM s) pt.md ct.value = some [-(a * s) + xe.e, a] := by
-    simp only [ezSk, hct]; exact encryptZeroSk_deg1 h _ o0 o1 a s hx
+theorem wrong_key {M : Mont α} {R Rinv : α} (h : IsMont M R Rinv)
+    (ntt intt : α → α) (pt : Pt α μ) (ct : Ct α μ) (o0 o1 : α) (rest : List α)
+    (hct : ct.value = o0 :: o1 :: rest) (a e s s' : α) :
+    ∃ out, (encrypt (ezSk M a e (M.toM s)) ntt intt (some pt) ct).bind (fun ct' => decrypt M ct' (M.toM s'))
+        = some out ∧ out.value - pt.value = montIf M pt.md.isMont e + a * (s' - s) ∧ out.md = pt.md := by
+  have hz := ezSk_degGe1 h pt.md o0 o1 a e s rest
+  rw [← hct] at hz
   rw [encrypt_value _ ntt intt pt ct _ _ hz]
   simp only [Option.bind_some]
   rw [decrypt_eq h s' _ (by simp)]
-  exact ⟨_, rfl, phase_encSk_wrong_key a xe.e s s' pt.value, rfl⟩
+  exact ⟨_, rfl, phase_encSk_wrong_key_tail a _ s s' pt.value rest, rfl⟩
 
 theorem unit_mul_bijective (d : α) (dinv : α) (hd : d * dinv = 1) : Function.Bijective (fun a : α => a * d) := by
   constructor
@@ -155,51 +109,59 @@ theorem genPublicKey_noise {β : Type} [CommRing β] {M : Mont β} {R Rinv : β}
     let pk := genPublicKey M ext a e (M.toM s)
     M.ofM pk.1 + M.ofM pk.2 * s = ext e := genPublicKey_relation h ext a e s
 
-/-- **dec_enc_pk_noP.** No auxiliary modulus, degree-1 target, honest draws, every flag combination:
-    stored result `m + u·e_pk + e0 + e1·s` where `pk0 + pk1·s = e_pk`. -/
-theorem dec_enc_pk_noP {M : Mont α} {R Rinv : α} (h : IsMont M R Rinv) {xe0 xe1 : ErrDraw α}
-    (h0 : xe0.Honest) (h1 : xe1.Honest) (ntt intt : α → α) (pt : Pt α μ) (ct : Ct α μ) (o0 o1 : α)
-    (hct : ct.value = [o0, o1]) (u pk0 pk1 epk s : α) (hpk : pk0 + pk1 * s = epk) :
-    (encrypt (ezPkNoP M u xe0 xe1 (M.toM pk0) (M.toM pk1)) ntt intt (some pt) ct).bind
+/-- **dec_enc_pk_noP.** No auxiliary modulus, every target of degree ≥ 1 (fresh or re-used), every flag
+    combination: stored result `m + N` resp. `m + MForm(N)`, `N = u·e_pk + e0 + e1·s`, where `pk0 + pk1·s = e_pk`;
+    denoted noise `N` for both values of the Montgomery flag (`dec_enc_pk_denote`). -/
+theorem dec_enc_pk_noP {M : Mont α} {R Rinv : α} (h : IsMont M R Rinv)
+    (ntt intt : α → α) (pt : Pt α μ) (ct : Ct α μ) (o0 o1 : α) (rest : List α)
+    (hct : ct.value = o0 :: o1 :: rest) (u e0 e1 pk0 pk1 epk s : α) (hpk : pk0 + pk1 * s = epk) :
+    (encrypt (ezPkNoP M u e0 e1 (M.toM pk0) (M.toM pk1)) ntt intt (some pt) ct).bind
         (fun ct' => decrypt M ct' (M.toM s))
-      = some { value := pt.value + u * epk + xe0.e + xe1.e * s, md := pt.md } := by
-  have hz : ezPkNoP M u xe0 xe1 (M.toM pk0) (M.toM pk1) pt.md ct.value
-      = some [u * pk0 + xe0.e, u * pk1 + xe1.e] := by
-    simp only [ezPkNoP, hct]; exact encryptZeroPkNoP_deg1 h _ o0 o1 u pk0 pk1 [] h0 h1
+      = some { value := pt.value + montIf M pt.md.isMont (u * epk + e0 + e1 * s), md := pt.md } := by
+  have hz := ezPkNoP_degGe1 h pt.md o0 o1 u e0 e1 pk0 pk1 rest
+  rw [← hct] at hz
   rw [encrypt_value _ ntt intt pt ct _ _ hz]
   simp only [Option.bind_some]
   rw [decrypt_eq h s _ (by simp)]
-  simp only [phase_encPk u xe0.e xe1.e pk0 pk1 s epk pt.value hpk]
+  simp only [phase_encPk_tail h _ u e0 e1 pk0 pk1 s epk pt.value rest hpk]
 
-/-- **dec_enc_pk_P.** Auxiliary modulus present (the code uses its first prime only), degree-1 target.
-    `π : R_{QP} → R_Q`, `ext` a section of `π` (`ExtendBasisSmallNormAndCenter`), `down` the rounded division with
-    `P·down x = π x − π(rem x)` (`rem x` the centred residue mod P).  The stored result is `m + D` (flag clear)
-    resp. `m + D·R` (flag set: `MForm` is applied to the zero-encryption, so the DENOTED noise is `D` either
-    way), and `P·D = π(u·e_pk + e0 + e1·s) − π(rem c0) − π(rem c1)·s`. -/
+theorem dec_enc_pk_denote {M : Mont α} {R Rinv : α} (h : IsMont M R Rinv) (pt : Pt α μ) (N : α) :
+    denote M pt.md (pt.value + montIf M pt.md.isMont N) = denote M pt.md pt.value + N := by
+  rw [denote_add h, denote_montIf h]
+
+/-- **dec_enc_pk_P.** Auxiliary modulus present (the code uses its first prime only), every target of
+    degree ≥ 1.  `π : R_{QP} → R_Q`, `ext` = `ExtendBasisSmallNormAndCenter`, `down` the rounded division with
+    `P·down x = π x − π(rem x)` (`rem x` the centred residue mod P).  The stored result is `m + D` resp.
+    `m + MForm(D)` (denoted noise `D` either way, `dec_enc_pk_denote`), and
+    `P·D = π(u·e_pk + e0 + e1·s) − π(rem c0) − π(rem c1)·s`. -/
 theorem dec_enc_pk_P {β : Type} [CommRing β] {MQ : Mont α} {R Rinv : α} (h : IsMont MQ R Rinv)
     {MQP : Mont β} {R' Rinv' : β} (h' : IsMont MQP R' Rinv')
     (π : β →+* α) (ext : α → β) (P : α) (down : β → α) (rem : β → β)
     (hdown : ∀ x, P * down x = π x - π (rem x))
-    (ntt intt : α → α) (pt : Pt α μ) (ct : Ct α μ) (o0 o1 : α) (hct : ct.value = [o0, o1])
+    (ntt intt : α → α) (pt : Pt α μ) (ct : Ct α μ) (o0 o1 : α) (rest : List α)
+    (hct : ct.value = o0 :: o1 :: rest)
     (u e0 e1 : α) (pk0 pk1 epk sQP : β) (hpk : pk0 + pk1 * sQP = epk) :
     let c0 := ext u * pk0 + ext e0
     let c1 := ext u * pk1 + ext e1
     let D := down c0 + π sQP * down c1
     (encrypt (ezPk MQ MQP ext down u e0 e1 (MQP.toM pk0) (MQP.toM pk1)) ntt intt (some pt) ct).bind
         (fun ct' => decrypt MQ ct' (MQ.toM (π sQP)))
-      = some { value := pt.value + (if pt.md.isMont then MQ.toM D else D), md := pt.md }
+      = some { value := pt.value + montIf MQ pt.md.isMont D, md := pt.md }
     ∧ P * D = π (ext u * epk + ext e0 + ext e1 * sQP) - π (rem c0) - π (rem c1) * π sQP := by
   intro c0 c1 D
   constructor
-  · have hz := encryptZeroPk_deg1 (MQ := MQ) h' ext down pt.md.isMont o0 o1 u e0 e1 [] pk0 pk1
-    rw [← hct] at hz
-    rw [encrypt_value (ezPk MQ MQP ext down u e0 e1 (MQP.toM pk0) (MQP.toM pk1)) ntt intt pt ct _ _ hz]
+  · have hz : ezPk MQ MQP ext down u e0 e1 (MQP.toM pk0) (MQP.toM pk1) pt.md ct.value
+        = some (montIf MQ pt.md.isMont (down c0) :: montIf MQ pt.md.isMont (down c1) ::
+            rest.map (fun o => o - o)) := by
+      simp only [ezPk, hct, clearTail]
+      exact encryptZeroPk_degGe1 (MQ := MQ) h' ext down pt.md.isMont o0 o1 u e0 e1 _ pk0 pk1
+    rw [encrypt_value _ ntt intt pt ct _ _ hz]
     simp only [Option.bind_some]
     rw [decrypt_eq h (π sQP) _ (by simp)]
-    simp only [Option.some.injEq, Pt.mk.injEq, and_true]
+    simp only [Option.some.injEq, Pt.mk.injEq, and_true, phase, phase_clear]
     cases pt.md.isMont
-    · simp only [phase, Bool.false_eq_true, if_false, D, c0, c1]; ring
-    · simp only [phase, if_true, h.toM, D, c0, c1]; ring
+    · simp only [montIf, Bool.false_eq_true, if_false, D]; ring
+    · simp only [montIf, if_true, h.toM, D]; ring
   · have := phase_encPk_P π P down rem hdown (ext u) (ext e0) (ext e1) pk0 pk1 sQP epk 0 hpk
     simp only [phase, add_zero, sub_zero, mul_zero] at this
     exact this
@@ -211,28 +173,10 @@ example : ∀ x : Int, (5 : Int) * ((x + 2) / 5) = (RingHom.id Int) x - (RingHom
 /-- **degree 0 under a public key**: there is no room for `c1`; the Go code indexes `ct.Value[1]` and panics
     (no error value).  Both variants. -/
 theorem pk_deg0_panics {β : Type} [CommRing β] (MQ : Mont α) (MQP : Mont β) (ext : α → β) (down : β → α)
-    (isNTT isMont : Bool) (o0 : α) (u e0 e1 : α) (xe0 xe1 : ErrDraw α) (pk0M pk1M : β) (qk0M qk1M : α) :
-    encryptZeroPk MQ MQP ext down isMont [o0] u e0 e1 pk0M pk1M = none ∧
-    encryptZeroPkNoP MQ isNTT [o0] u xe0 xe1 qk0M qk1M = none :=
+    (md : MetaData μ) (o0 : α) (u e0 e1 : α) (pk0M pk1M : β) (qk0M qk1M : α) :
+    ezPk MQ MQP ext down u e0 e1 pk0M pk1M md [o0] = none ∧
+    ezPkNoP MQ u e0 e1 qk0M qk1M md [o0] = none :=
   ⟨rfl, rfl⟩
-
-/-- **degree ≥ 2 under a public key, as the code is**: `Value[2:]` keeps its previous content, the phase picks
-    up `s²·(o2 + …)`.  With a fresh (zero) target this term vanishes. -/
-theorem dec_enc_degGe2_partial {M : Mont α} {R Rinv : α} (h : IsMont M R Rinv) {xe0 xe1 : ErrDraw α}
-    (h0 : xe0.Honest) (h1 : xe1.Honest) (ntt intt : α → α) (pt : Pt α μ) (ct : Ct α μ) (o0 o1 o2 : α)
-    (rest : List α) (hct : ct.value = o0 :: o1 :: o2 :: rest) (u pk0 pk1 epk s : α) (hpk : pk0 + pk1 * s = epk) :
-    (encrypt (ezPkNoP M u xe0 xe1 (M.toM pk0) (M.toM pk1)) ntt intt (some pt) ct).bind
-        (fun ct' => decrypt M ct' (M.toM s))
-      = some { value := pt.value + u * epk + xe0.e + xe1.e * s + s * (s * phase s (o2 :: rest)), md := pt.md } := by
-  have hz : ezPkNoP M u xe0 xe1 (M.toM pk0) (M.toM pk1) pt.md ct.value
-      = some ((u * pk0 + xe0.e) :: (u * pk1 + xe1.e) :: o2 :: rest) := by
-    simp only [ezPkNoP, hct]; exact encryptZeroPkNoP_deg1 h _ o0 o1 u pk0 pk1 (o2 :: rest) h0 h1
-  rw [encrypt_value _ ntt intt pt ct _ _ hz]
-  simp only [Option.bind_some]
-  rw [decrypt_eq h s _ (by simp)]
-  subst hpk
-  simp only [Option.some.injEq, Pt.mk.injEq, and_true, phase]
-  ring
 
 /-! ## metadata, flags -/
 
@@ -245,7 +189,7 @@ theorem metadata_eq (M : Mont α) (ez : MetaData μ → List α → Option (List
   rw [decrypt_md M ct' sM out hd, encrypt_md ez ntt intt pt ct ct' he]
 
 example : ∃ (pt out : Pt Int Unit) (ct ct' : Ct Int Unit),
-    encrypt (ezSk ⟨id, id⟩ 1 (ErrDraw.dense 0) 1) id id (some pt) ct = some ct' ∧
+    encrypt (ezSk ⟨id, id⟩ 1 0 1) id id (some pt) ct = some ct' ∧
     decrypt ⟨id, id⟩ ct' 1 = some out :=
   ⟨⟨5, ⟨(), true, false⟩⟩, ⟨5, ⟨(), true, false⟩⟩, ⟨[0, 0], ⟨(), false, false⟩⟩, ⟨[4, 1], ⟨(), true, false⟩⟩,
     by decide, by decide⟩
@@ -254,41 +198,6 @@ example : ∃ (pt out : Pt Int Unit) (ct ct' : Ct Int Unit),
 theorem encrypt_indep_transforms (ez : MetaData μ → List α → Option (List α)) (ntt intt : α → α)
     (pt : Option (Pt α μ)) (ct : Ct α μ) : encrypt ez ntt intt pt ct = encrypt ez id id pt ct :=
   encrypt_flags_agree ez ntt intt id id pt ct
-
-/-- The `IsNTT` flag does not change the stored result of `EncryptZero` for an honest error sampler
-    (it only selects `Read`+`Add` or `ReadAndAdd`). -/
-theorem encryptZeroSk_isNTT_irrelevant (M : Mont α) {xe : ErrDraw α} (hx : xe.Honest) (old : List α) (a sM : α) :
-    encryptZeroSk M true old a xe sM = encryptZeroSk M false old a xe sM := by
-  unfold encryptZeroSk
-  simp [addErr_honest true hx, addErr_honest false hx]
-
-/-! ## the ternary error sampler is not honest -/
-
-/-- **Xe ternary, target outside the NTT domain, level below the top level: `Encrypt` panics**
-    (`TernarySampler.AtLevel` keeps writing all rows; probe key `C03-ternary-atlevel-panic`). -/
-theorem ternary_atLevel_panics (kind : RQ.XeKind) (hk : kind ≠ .gauss) (level maxLevel : Nat)
-    (hl : level < maxLevel) (e a sM : RQ) (old : List RQ) :
-    encryptZeroSk RQ.mont false old a (RQ.errDraw kind level maxLevel e) sM = none := by
-  cases kind with
-  | gauss => exact absurd rfl hk
-  | ternaryP => match old with
-    | [] | [_] | [_, _] | _ :: _ :: _ :: _ => simp [encryptZeroSk, addErr, RQ.errDraw, hl]
-  | ternaryH => match old with
-    | [] | [_] | [_, _] | _ :: _ :: _ :: _ => simp [encryptZeroSk, addErr, RQ.errDraw, hl]
-
-example : (2 : Nat) < 3 ∧ RQ.XeKind.ternaryP ≠ .gauss := by decide
-
-/-- the sampled error `e = (1, 0)` and a target `c = (5, 7)` modulo 97, top level -/
-def sparseWitness : RQ × RQ := (⟨false, ⟨[97], [[1, 0]]⟩⟩, ⟨false, ⟨[97], [[5, 7]]⟩⟩)
-
-/-- **Xe = Ternary{H} is not honest under `ReadAndAdd`**: the coefficient that was not selected is overwritten
-    with 0 (`7 ↦ 0`), so `c0 = −a·s + e` is destroyed there and the phase is off by `a·s` in that coefficient
-    (probe key `C03-ternaryH-readandadd`). -/
-theorem sparse_readAndAdd_counterexample :
-    (RQ.errDraw .ternaryH 0 0 sparseWitness.1).readAndAdd sparseWitness.2
-        = some ⟨false, ⟨[97], [[6, 0]]⟩⟩ ∧
-    sparseWitness.2 + sparseWitness.1 = ⟨false, ⟨[97], [[6, 7]]⟩⟩ := by
-  decide
 
 /-! ## norms: the two-sided bound, upper side -/
 
@@ -331,22 +240,16 @@ end Lattigo.Props.C03
 
 #print axioms Lattigo.Props.C03.dec_enc_sk
 #print axioms Lattigo.Props.C03.dec_enc_sk_denote
-#print axioms Lattigo.Props.C03.montgomery_flag_counterexample
 #print axioms Lattigo.Props.C03.dec_enc_sk_deg0
-#print axioms Lattigo.Props.C03.dec_enc_sk_degGe2_partial
-#print axioms Lattigo.Props.C03.sk_degree2_counterexample
 #print axioms Lattigo.Props.C03.wrong_key
 #print axioms Lattigo.Props.C03.unit_mul_bijective
 #print axioms Lattigo.Props.C03.genPublicKey_noise
 #print axioms Lattigo.Props.C03.dec_enc_pk_noP
+#print axioms Lattigo.Props.C03.dec_enc_pk_denote
 #print axioms Lattigo.Props.C03.dec_enc_pk_P
 #print axioms Lattigo.Props.C03.pk_deg0_panics
-#print axioms Lattigo.Props.C03.dec_enc_degGe2_partial
 #print axioms Lattigo.Props.C03.metadata_eq
 #print axioms Lattigo.Props.C03.encrypt_indep_transforms
-#print axioms Lattigo.Props.C03.encryptZeroSk_isNTT_irrelevant
-#print axioms Lattigo.Props.C03.ternary_atLevel_panics
-#print axioms Lattigo.Props.C03.sparse_readAndAdd_counterexample
 #print axioms Lattigo.Props.C03.negacyclic_norm
 #print axioms Lattigo.Props.C03.noise_upper_sk
 #print axioms Lattigo.Props.C03.noise_upper_pk_noP
